@@ -842,7 +842,7 @@ func runAuth(args []string) error {
 	tier := fs.String("tier", "quick", "quick|thorough")
 	strict := fs.Bool("cookie-strict", false, "model flag: GetLoginCookie rejects incomplete records")
 	seg := fs.Bool("seg-prefix", false, "model flag: ingress paths match on segment boundaries")
-	mode := fs.String("mode", "login", "login | callback")
+	mode := fs.String("mode", "login", "login | callback | history")
 	fs.Parse(args)
 	sharedKeys()
 	open := func(suffix string) (*os.File, *bufio.Writer, error) {
@@ -876,6 +876,12 @@ func runAuth(args []string) error {
 		{"http://wonderwall", "http://wonderwall/app", "http://wonderwall/app/sub"},
 		{"https://a.example.com/x", "http://other.example.org:8080/x/y"},
 		{"http://wonderwall", "http://wonderwall/o", "http://wonderwall/app", "http://wonderwall/apple"},
+	}
+	if *mode == "history" {
+		// one process, one generator: long mixed histories over every consumer of pkg/strings.Generate (authhistory.go)
+		n, err := runAuthHistory(win, wimpl, wobs, rng, *tier, *strict, *seg)
+		fmt.Fprintf(os.Stderr, "auth: %d operations (mode history)\n", n)
+		return err
 	}
 	if *mode == "login" {
 		nper := 45
